@@ -331,7 +331,11 @@ func main() {
 		}
 	}
 	r.Set("universe", universe)
-	r.Set("bound", fmt.Sprintf("alphabet of %d pieces; sequences of length 1..%d in %d skeleton x joiner combinations, length %d..%d in the first combination", a, fullLen, combos, fullLen+1, extraLen))
+	bound := fmt.Sprintf("alphabet of %d pieces; every sequence of length 1..%d in %d skeleton x joiner combinations", a, fullLen, combos)
+	if extraLen > fullLen {
+		bound += fmt.Sprintf(", and of length %d..%d in the first combination", fullLen+1, extraLen)
+	}
+	r.Set("bound", bound)
 
 	decode := func(i int) tcase {
 		for _, bl := range blocks {
